@@ -21,8 +21,9 @@ CONSTANTS SessCfg, OneCfg, HeapKind, Alias, Forms, MaxSteps, Gen, Memo, AllPairs
 
 \* form: the shape of the history; nc: calls so far; ed: the caller has edited something; q1: the first call after the stitch
 \* (form "slice2": the first call); hist: the history with the expected worlds (generator only)
-VARIABLES w, w0, form, hist, last, nst, nc, ed, q1, frid, memo, mout, mheap
-vars == <<w, w0, form, hist, last, nst, nc, ed, q1, frid, memo, mout, mheap>>
+\* pick: form "free" draws the KIND of the next step first (so that a simulated history does not consist of the many slices)
+VARIABLES w, w0, form, hist, last, nst, nc, ed, q1, frid, memo, mout, mheap, pick
+vars == <<w, w0, form, hist, last, nst, nc, ed, q1, frid, memo, mout, mheap, pick>>
 
 OCs == {<<"[", "]">>, <<"[", ")">>, <<"(", "]">>, <<"(", ")">>}
 Act(op) == [op |-> op, tgt |-> "", i |-> 0, j |-> 0, r |-> 0, v |-> 0, n |-> 0, b |-> 0, lb |-> 0, ub |-> 0,
@@ -51,7 +52,7 @@ Init == /\ form \in Forms
                     /\ w0 = [heap |-> [i \in 1..kp[1] |-> SeriesOn(Ts[i], 1000 * i)], ids |-> ids,
                              bl |-> v, fr |-> NoFrame, fn |-> 0]
         /\ w = w0 /\ hist = <<>> /\ last = NoAct /\ nst = 0 /\ nc = 0 /\ ed = FALSE /\ q1 = NoAct
-        /\ frid = 0 /\ mout = <<>> /\ mheap = w0.heap
+        /\ frid = 0 /\ mout = <<>> /\ mheap = w0.heap /\ pick = ""
         /\ memo = [frid |-> -1, bl |-> <<>>, shape |-> <<0, 0>>, res |-> <<>>]
 
 \* ---- the alphabets ------------------------------------------------------------------------------------
@@ -110,7 +111,7 @@ Admits(a) ==
             \/ nc = 1 /\ ~ed /\ ((a.op = "set" /\ a.tgt = "s" /\ PickedEdit(a)) \/ (a.op = "smudge" /\ a.tgt = "sl"))
             \/ nc = 1 /\ a.op = "slice" /\ a.tgt = "s" /\ a.i = q1.i /\ (AllPairs \/ NDiff(a, q1) <= 1)
       [] OTHER -> nst < MaxSteps /\ (a.op = "smudge" => last.op = (IF a.tgt = "un" THEN "unslice" ELSE "slice"))
-                             /\ (a.op = "slice" => (a.tgt = "s" \/ a \in FrameQueries))
+                             /\ (a.op = "slice" => <<a.lb, a.ub, a.oc>> \in {<<q.lb, q.ub, q.oc>> : q \in FrameQueries})
                              /\ (a.op = "bound" => NearBound(a))
 Complete == CASE form = "stitch2" -> nc = 2
               [] form = "frame"   -> nc = 3
@@ -132,8 +133,12 @@ Trimmed(ww, n) == [h \in 1..Len(ww.heap) |->
          Slice(ww.heap[h], lo, ww.bl[i], <<"[", "]">>, "date", 0)
     ELSE ww.heap[h]]
 
+Kinds == {"stitch", "unslice", "slice", "set", "bound", "swap", "put", "smudge"}
+Choose == /\ form = "free" /\ pick = "" /\ ~Complete /\ nst < 90
+          /\ \E k \in Kinds : {a \in Alphabet : a.op = k /\ Admits(a) /\ StepEnabled(w, a)} # {} /\ pick' = k
+          /\ UNCHANGED <<w, w0, form, hist, last, nst, nc, ed, q1, frid, memo, mout, mheap>>
 Step == \E a \in Alphabet :
-    /\ ~Complete /\ nst < 90 /\ StepEnabled(w, a) /\ Admits(a)
+    /\ ~Complete /\ nst < 90 /\ (form = "free" => a.op = pick) /\ Admits(a) /\ StepEnabled(w, a) /\ pick' = ""
     /\ w' = Apply(w, a) /\ last' = a /\ nst' = nst + 1
     /\ nc' = IF IsCall(a) THEN nc + 1 ELSE nc
     /\ ed' = (ed \/ ~IsCall(a))
@@ -146,8 +151,8 @@ Step == \E a \in Alphabet :
     /\ UNCHANGED <<w0, form>>
 Finish == /\ Gen /\ Complete /\ nst < 90
           /\ nst' = 99 /\ PrintT(ToJson([form |-> form, w0 |-> w0, steps |-> hist]))
-          /\ UNCHANGED <<w, w0, form, hist, last, nc, ed, q1, frid, memo, mout, mheap>>
-Next == Step \/ Finish
+          /\ UNCHANGED <<w, w0, form, hist, last, nc, ed, q1, frid, memo, mout, mheap, pick>>
+Next == Choose \/ Step \/ Finish
 
 \* ---- the clauses ----------------------------------------------------------------------------------------
 TypeOK == WorldOK(w) /\ WorldOK(w0)
